@@ -9,6 +9,8 @@
 import Gozod.Model.GenChain
 import Gozod.Model.GenSplit
 import Gozod.Model.GenEmit
+import Gozod.Model.GenTyped
+import Gozod.Gen.MethodTable
 namespace Gozod.Drv.C13
 open Gozod Gozod.Tags Gozod.GenChain
 
@@ -45,13 +47,41 @@ def specRefuses (tag : List Nat) : Option String :=
     else if (TagParser.trimSpace name).isEmpty then some "err:name"
     else none
 
-def kindOf (gotype : String) : Option (GenEmit.Kind × Bool) :=
-  let ptr := gotype.startsWith "*"
-  let base := if ptr then (gotype.drop 1).toString else gotype
-  match base with
-  | "string" => some (.string, ptr) | "int" => some (.int, ptr)
-  | "int64" => some (.int64, ptr) | "float64" => some (.float64, ptr)
-  | _ => none
+def isIdent (cs : List Char) : Bool :=
+  match cs with
+  | [] => false
+  | c :: _ => (c.isAlpha || c == '_') && cs.all fun d => d.isAlphanum || d == '_'
+
+/-- the field type as the harness writes it (`getTypeNameFromAST` syntax: `*T`, `[]T`, `map[K]V` with a bracket-free key,
+    basic names, `time.Time`, identifiers) -/
+def parseTyF : Nat → List Char → Option GenEmit.Ty
+  | 0, _ => none
+  | f + 1, cs =>
+    match cs with
+    | '*' :: r => (parseTyF f r).map .ptr
+    | '[' :: ']' :: r => (parseTyF f r).map .slice
+    | 'm' :: 'a' :: 'p' :: '[' :: r =>
+      let k := r.takeWhile (· != ']')
+      let v := (r.dropWhile (· != ']')).drop 1
+      match parseTyF f k, parseTyF f v with
+      | some k, some v => some (.map k v)
+      | _, _ => none
+    | _ =>
+      let s := String.ofList cs
+      if s == "time.Time" then some .time
+      else match GenEmit.Basic.all.find? (·.name == s) with
+        | some b => some (.basic b)
+        | none => if isIdent cs then some (.named (GenEmit.asc s)) else none
+
+def parseTy (s : String) : Option GenEmit.Ty := parseTyF (s.length + 1) s.toList
+
+/-- predicted status of the file written for a one-field struct: the expression is well typed against the regenerated
+    method table and every import written is used -/
+def statusOf (rs : List TagParser.Rule) (c : GenEmit.Chain) : String :=
+  match GenTyped.wellTyped Gen.methodTable c with
+  | some true => if GenTyped.importsUsed [rs] [c] then "ok" else "notypecheck"
+  | some false => "notypecheck"
+  | none => "?"
 
 def handle : List String → String
   | ["split", s, "|", ref] =>
@@ -68,11 +98,21 @@ def handle : List String → String
   | ["wsame", _, _, _] => "same same"
   | ["wbuild"] => "ok ok"
   | ["wexpr", gotype, _, tag] =>
-    match parseRunes tag, kindOf gotype with
-    | some tag, some (k, ptr) =>
-      match GenEmit.emitField k ptr tag with
+    match parseRunes tag, parseTy gotype with
+    | some tag, some t =>
+      match GenEmit.emitField t [] tag with
       | some e => "expr=" ++ renderRunes e
       | none => "?"
+    | _, _ => "?"
+  | ["texpr", gotype, _, tag, sn] =>
+    match parseRunes tag, parseTy gotype with
+    | some tag, some t =>
+      match GenSplit.genParseTag tag with
+      | .ok rs =>
+        match GenEmit.emitChain t (GenEmit.asc sn) rs with
+        | some c => "st=" ++ statusOf rs c ++ " expr=" ++ renderRunes c.render
+        | none => "?"
+      | .error _ => "?"
     | _, _ => "?"
   | ["wcell", _, _, tag, _, "|", _] =>
     match parseRunes tag with
